@@ -370,6 +370,19 @@ func genH2CSeq(fns []string) func(t *rapid.T) caseH2CSeq {
 					msg[rapid.IntRange(0, len(msg)-1).Draw(t, "mpos")] ^= 0x55
 				}
 			}
+			if gen.Chance(t, "shiftedBoundary", 1, 6) {
+				// two consecutive calls whose DST_prime || msg concatenations are byte-for-byte EQUAL although (msg, DST) differ:
+				// DST2 = DST1 || len(DST1) || P and msg1 = P || len(DST2) || msg2. Only the RFC's framing (DST_prime LAST, with its
+				// length byte) keeps them apart; anything that identifies a request by a naive concatenation confuses them.
+				d1 := rapid.SliceOfN(rapid.Byte(), 1, 100).Draw(t, "sbDst")
+				pfx := rapid.SliceOfN(rapid.Byte(), 0, 24).Draw(t, "sbP")
+				m2 := rapid.SliceOfN(rapid.Byte(), 0, 24).Draw(t, "sbMsg")
+				a, b := shiftedBoundaryPair(d1, pfx, m2, rapid.SampledFrom(fns).Draw(t, "sbFn"))
+				if rapid.Bool().Draw(t, "sbSwap") {
+					a, b = b, a
+				}
+				c.Steps = append(c.Steps, a, b)
+			}
 			if i > 0 && gen.Chance(t, "emptyDst", 1, 8) {
 				c.Steps = append(c.Steps, h2cStep{Fn: rapid.SampledFrom(fns).Draw(t, "fnr"), Msg: hex.EncodeToString(msg), Rep: rapid.SampledFrom([]int{1, 3, 70, 300}).Draw(t, "rep")})
 			}
@@ -377,6 +390,26 @@ func genH2CSeq(fns []string) func(t *rapid.T) caseH2CSeq {
 		}
 		return c
 	}
+}
+
+// shiftedBoundaryPair returns the steps (msg1, DST1), (msg2, DST2) with DST2 = DST1 || len(DST1) || P and msg1 = P || len(DST2) || msg2.
+func shiftedBoundaryPair(d1, pfx, m2 []byte, fn string) (h2cStep, h2cStep) {
+	d2 := append(append(append([]byte{}, d1...), byte(len(d1))), pfx...)
+	m1 := append(append(append([]byte{}, pfx...), byte(len(d2))), m2...)
+	return h2cStep{Fn: fn, Msg: hex.EncodeToString(m1), Dst: hex.EncodeToString(d1)}, h2cStep{Fn: fn, Msg: hex.EncodeToString(m2), Dst: hex.EncodeToString(d2)}
+}
+
+// shiftedBoundarySequences are the fixed cases of that shape.
+func shiftedBoundarySequences(fns []string) []caseH2CSeq {
+	var out []caseH2CSeq
+	for i, fn := range fns {
+		for _, v := range []struct{ d1, pfx, m2 string }{{"QUUX-V01-CS02-with-secp256k1", "", ""}, {"dst", "prefix", "message"}, {"d", "", "abc"}, {"0123456789abcdef", "P", ""}} {
+			a, b := shiftedBoundaryPair([]byte(v.d1), []byte(v.pfx), []byte(v.m2), fn)
+			out = append(out, caseH2CSeq{Steps: []h2cStep{a, b, a}, Spare: i % 2})
+			out = append(out, caseH2CSeq{Steps: []h2cStep{b, a}, Spare: 1})
+		}
+	}
+	return out
 }
 
 // failingReader writes garbage into the buffer it is given and reports an error.
@@ -502,22 +535,26 @@ func runH2CSeq(c caseH2CSeq, o *gen.Obs) error {
 }
 
 var c08seq = gen.Register(&gen.Check[caseH2CSeq]{
-	Name:     "C08/sequence",
-	Weight:   0.25,
-	Gen:      genH2CSeq([]string{"ro", "nu"}),
-	Run:      runH2CSeq,
-	Fixed:    func() []caseH2CSeq { return hugeSequences([]string{"ro", "nu"}) },
+	Name:   "C08/sequence",
+	Weight: 0.25,
+	Gen:    genH2CSeq([]string{"ro", "nu"}),
+	Run:    runH2CSeq,
+	Fixed: func() []caseH2CSeq {
+		return append(shiftedBoundarySequences([]string{"ro", "nu"}), hugeSequences([]string{"ro", "nu"})...)
+	},
 	Required: []string{"oversize-dst-twice", "same-length-overwrite", "huge-message", "after-recovered-panics", "after-failed-random"},
 })
 
 func TestC08Sequence(t *testing.T) { c08seq.Execute(t) }
 
 var c09seq = gen.Register(&gen.Check[caseH2CSeq]{
-	Name:     "C09/sequence",
-	Weight:   0.25,
-	Gen:      genH2CSeq([]string{"scalar"}),
-	Run:      runH2CSeq,
-	Fixed:    func() []caseH2CSeq { return hugeSequences([]string{"scalar"}) },
+	Name:   "C09/sequence",
+	Weight: 0.25,
+	Gen:    genH2CSeq([]string{"scalar"}),
+	Run:    runH2CSeq,
+	Fixed: func() []caseH2CSeq {
+		return append(shiftedBoundarySequences([]string{"scalar"}), hugeSequences([]string{"scalar"})...)
+	},
 	Required: []string{"oversize-dst-twice", "same-length-overwrite", "huge-message", "after-recovered-panics", "after-failed-random"},
 })
 
